@@ -152,3 +152,8 @@ MUTANTS += [
  {"id": "enumerated-filtered-fields-benign", "kind": "benign", "edits": [{"patch": "/verif/benign/h7-distinfo-2/patch.diff"}]},
  {"id": "enumerated-fields-filter-dropped", "kind": "break", "edits": [{"patch": "/verif/benign/h7-distinfo-2/patch.diff"}, ("src/distinfo.rs", ".filter(|s| !s.is_empty())", "")], "expect": ["PANIC@distinfo::Line::from_bytes"]},
 ]
+MUTANTS += [
+ {"id": "nb-tail-after-matched-prefix-benign", "kind": "benign", "edits": [{"patch": "/verif/benign/h7-dewey-1/patch.diff"}]},
+ {"id": "nb-tail-cut-past-matched-prefix", "kind": "break", "edits": [{"patch": "/verif/benign/h7-dewey-1/patch.diff"}, ("src/dewey.rs", "let nbstr = leading_digits(&slice[2..]);", "let nbstr = leading_digits(&slice[3..]);")], "expect": ["PANIC@dewey::DeweyVersion::new"]},
+ {"id": "nb-advance-zero-when-no-digits", "kind": "break", "edits": [{"patch": "/verif/benign/h7-dewey-1/patch.diff"}, ("src/dewey.rs", "idx += 2 + nbstr.len();", "idx += nbstr.len() * 2;")], "expect": ["TERM@dewey::DeweyVersion::new"]},
+]
